@@ -240,10 +240,7 @@ func genConstRange(w *World, res *CheckResult) {
 	}
 	a, b := Fresh("a", SBV(64)), Fresh("b", SBV(64))
 	// literals are non-negative in the source; unary minus is folded first, so small negative values occur too
-	for _, x := range []*Term{a, b} {
-		st.Assume(BVCmp("bvsge", x, BV64(-(1 << 62))))
-		st.Assume(BVCmp("bvsle", x, BV64(1<<62)))
-	}
+	// every int value: b - a + 1 may wrap (the run-time range computes the same wrapped size)
 	old := lay.ptrVal("BinaryNode", bn)
 	st.Store(slot.One(), old)
 	st.Store(LocField(bn, lay.off("BinaryNode", "Operator")), StrLit(".."))
